@@ -98,6 +98,7 @@ func experimental(pkg string, dirs []string) bool {
 
 type verdict struct {
 	Visible  bool
+	VisOpen  bool   // a visibility entry names the hidden dependent itself (not its parent): not decided
 	VisWhy   string // which rule decided
 	TestOnly string // "ok", "violated", "open"
 }
@@ -131,9 +132,16 @@ func refEdge(e edgeCase) verdict {
 				break
 			}
 		}
+		if !v.Visible && parent != e.A.label() {
+			for _, vs := range e.D.Visibility {
+				if labellib.Selects(parsePattern(vs), e.A.label()) {
+					v.VisOpen = true
+				}
+			}
+		}
 		if !v.Visible {
 			if expA {
-				v.Visible, v.VisWhy = true, "experimental-exempt"
+				v.Visible, v.VisOpen, v.VisWhy = true, false, "experimental-exempt"
 			} else {
 				v.VisWhy = "no-entry:" + nearMiss(e)
 			}
@@ -249,20 +257,152 @@ func classify(err error) string {
 	return "other:" + msg
 }
 
-// checkEdge evaluates one edge with the real code and compares.
-func checkEdge(r *lib.Run, idx int, state *core.BuildState, e edgeCase) {
-	want := refEdge(e)
+type finding struct {
+	key, what string
+	w         any
+}
+
+// evalReal decides one edge with the real code; the targets are added to the state's graph.
+func evalReal(state *core.BuildState, e edgeCase) (canSee bool, got string) {
 	a, d := makeTarget(e.A), makeTarget(e.D)
 	state.Graph.AddTarget(a)
 	state.Graph.AddTarget(d)
 	addEdge(a, d.Label, e.Via)
-	got := classify(a.CheckDependencyVisibility(state))
-	canSee := a.CanSee(state, d)
+	return a.CanSee(state, d), classify(a.CheckDependencyVisibility(state))
+}
+
+func evalFresh(e edgeCase) (bool, string) {
+	state, key := pool.get(e.Exp)
+	defer pool.put(key, state)
+	return evalReal(state, e)
+}
+
+// compare returns nil when Please agrees with the reference on the edge.
+func compare(e edgeCase, canSee bool, got string) *finding {
+	want := refEdge(e)
+	desc := fmt.Sprintf("%s (test=%v test_only=%v) -> %s via %s (visibility %v, test_only=%v), experimental dirs %v", e.A, e.A.Test, e.A.TestOnly, e.D, e.Via, e.D.Visibility, e.D.TestOnly, e.Exp)
+	w := map[string]any{"edge": e, "reference": want, "can_see": canSee, "check_result": got}
+	if want.VisOpen {
+		return nil
+	}
+	if canSee != want.Visible {
+		dir := "refused"
+		if canSee {
+			dir = "allowed"
+		}
+		return &finding{"visibility/" + dir + "/" + want.VisWhy, fmt.Sprintf("CanSee: %s: Please says visible=%v, reference %v (%s)", desc, canSee, want.Visible, want.VisWhy), w}
+	}
+	switch {
+	case !want.Visible:
+		if got != "visibility" {
+			return &finding{"check/not-visible-edge-accepted/" + want.VisWhy + "/via-" + e.Via, fmt.Sprintf("CheckDependencyVisibility: %s: reference says not visible (%s), Please returned %q", desc, want.VisWhy, got), w}
+		}
+	case want.TestOnly == "violated":
+		if got != "test_only" {
+			return &finding{"check/test_only-edge-accepted/via-" + e.Via + dependentKind(e.A) + expNote(e), fmt.Sprintf("CheckDependencyVisibility: %s: a plain target may not depend on a test_only one, Please returned %q", desc, got), w}
+		}
+	case want.TestOnly == "open":
+		if got != "ok" && got != "test_only" {
+			return &finding{"check/unexpected-error", fmt.Sprintf("CheckDependencyVisibility: %s: Please returned %q", desc, got), w}
+		}
+	default:
+		if got != "ok" {
+			key := "check/allowed-edge-refused/" + want.VisWhy
+			if got == "test_only" {
+				key = "check/test_only-refused-although-allowed/via-" + e.Via + dependentKind(e.A)
+			}
+			return &finding{key, fmt.Sprintf("CheckDependencyVisibility: %s: every rule allows this edge (%s), Please returned %q", desc, want.VisWhy, got), w}
+		}
+	}
+	return nil
+}
+
+// expNote marks test_only findings that only arise with an experimental directory configured.
+func expNote(e edgeCase) string {
+	for _, d := range e.Exp {
+		if c := labellib.PairClass(d, e.A.Pkg); c == "sibling-prefix" {
+			return "/experimental-sibling-prefix"
+		}
+	}
+	if len(e.Exp) > 0 {
+		return "/with-experimental-dir"
+	}
+	return ""
+}
+
+// shrink greedily removes everything from a disagreeing edge that is not needed for the disagreement
+// (visibility entries, experimental directories, flags, tool/src declaration, hiddenness), so that the
+// witness is minimal and its key names only what matters.
+func shrink(e edgeCase) edgeCase {
+	disagrees := func(c edgeCase) bool {
+		cs, got := evalFresh(c)
+		return compare(c, cs, got) != nil
+	}
+	clone := func(c edgeCase) edgeCase {
+		c.D.Visibility = append([]string(nil), c.D.Visibility...)
+		c.Exp = append([]string(nil), c.Exp...)
+		return c
+	}
+	for changed := true; changed; {
+		changed = false
+		var cands []edgeCase
+		for i := range e.D.Visibility {
+			c := clone(e)
+			c.D.Visibility = append(c.D.Visibility[:i], c.D.Visibility[i+1:]...)
+			cands = append(cands, c)
+		}
+		for i := range e.Exp {
+			c := clone(e)
+			c.Exp = append(c.Exp[:i], c.Exp[i+1:]...)
+			cands = append(cands, c)
+		}
+		if e.A.Test {
+			c := clone(e)
+			c.A.Test = false
+			cands = append(cands, c)
+		}
+		if e.A.TestOnly {
+			c := clone(e)
+			c.A.TestOnly = false
+			cands = append(cands, c)
+		}
+		if e.D.TestOnly {
+			c := clone(e)
+			c.D.TestOnly = false
+			cands = append(cands, c)
+		}
+		if e.Via != "dep" {
+			c := clone(e)
+			c.Via = "dep"
+			cands = append(cands, c)
+		}
+		if p := refParent(e.A.label()); p.Name != e.A.Name {
+			c := clone(e)
+			c.A.Name = p.Name
+			cands = append(cands, c)
+		}
+		for _, c := range cands {
+			if disagrees(c) {
+				e, changed = c, true
+				break
+			}
+		}
+	}
+	return e
+}
+
+const shrinksPerBatch = 3
+
+// checkEdge evaluates one edge with the real code and compares; budget limits how many disagreeing
+// edges of the batch are minimised and reported (the rest are only counted).
+func checkEdge(r *lib.Run, idx int, state *core.BuildState, e edgeCase, budget *int) {
+	want := refEdge(e)
+	canSee, got := evalReal(state, e)
 
 	nontrivial := e.A.Pkg != e.D.Pkg && (len(e.D.Visibility) > 0 || len(e.Exp) > 0 || e.D.TestOnly)
 	r.Case(lib.JSON(e), nontrivial)
 	r.Obs("edges_checked", 1)
-	r.ObsDistinct("deciding_rules", want.VisWhy+"|"+want.TestOnly)
+	r.ObsDistinct("deciding_rules", strings.SplitN(want.VisWhy, ":", 2)[0]+"|"+want.TestOnly)
 	if want.Visible {
 		r.Obs("edges_visible", 1)
 	} else {
@@ -277,43 +417,21 @@ func checkEdge(r *lib.Run, idx int, state *core.BuildState, e edgeCase) {
 	if r.WantSample() && nontrivial && !want.Visible {
 		r.Sample(map[string]any{"edge": e, "reference": want, "please": got})
 	}
-
-	desc := fmt.Sprintf("%s (test=%v test_only=%v) -> %s via %s (visibility %v, test_only=%v), experimental dirs %v", e.A, e.A.Test, e.A.TestOnly, e.D, e.Via, e.D.Visibility, e.D.TestOnly, e.Exp)
-	if canSee != want.Visible {
-		dir := "refused"
-		if canSee {
-			dir = "allowed"
-		}
-		r.Violation("visibility/"+dir+"/"+want.VisWhy, fmt.Sprintf("CanSee: %s: Please says visible=%v, reference %v (%s)", desc, canSee, want.Visible, want.VisWhy),
-			map[string]any{"edge": e, "reference": want, "can_see": canSee}, idx)
+	f := compare(e, canSee, got)
+	if f == nil {
 		return
 	}
-	// whole check: expected class
-	switch {
-	case !want.Visible:
-		if got != "visibility" {
-			r.Violation("check/not-visible-edge-accepted/"+want.VisWhy+"/via-"+e.Via, fmt.Sprintf("CheckDependencyVisibility: %s: reference says not visible (%s), Please returned %q", desc, want.VisWhy, got),
-				map[string]any{"edge": e, "reference": want, "please": got}, idx)
-		}
-	case want.TestOnly == "violated":
-		if got != "test_only" {
-			r.Violation("check/test_only-edge-accepted/via-"+e.Via+dependentKind(e.A), fmt.Sprintf("CheckDependencyVisibility: %s: a plain target may not depend on a test_only one, Please returned %q", desc, got),
-				map[string]any{"edge": e, "reference": want, "please": got}, idx)
-		}
-	case want.TestOnly == "open":
-		if got != "ok" && got != "test_only" {
-			r.Violation("check/unexpected-error", fmt.Sprintf("CheckDependencyVisibility: %s: Please returned %q", desc, got), map[string]any{"edge": e, "please": got}, idx)
-		}
-	default:
-		if got != "ok" {
-			key := "check/allowed-edge-refused/" + want.VisWhy
-			if got == "test_only" {
-				key = "check/test_only-refused-although-allowed/via-" + e.Via + dependentKind(e.A)
-			}
-			r.Violation(key, fmt.Sprintf("CheckDependencyVisibility: %s: every rule allows this edge (%s), Please returned %q", desc, want.VisWhy, got),
-				map[string]any{"edge": e, "reference": want, "please": got}, idx)
-		}
+	if *budget <= 0 {
+		r.Obs("disagreeing_edges_not_minimised", 1)
+		return
 	}
+	*budget--
+	m := shrink(e)
+	cs, g := evalFresh(m)
+	if f2 := compare(m, cs, g); f2 != nil {
+		f = f2
+	}
+	r.Violation(f.key, f.what, f.w, idx)
 }
 
 func dependentKind(a node) string {
@@ -463,9 +581,10 @@ func edgesStream(r *lib.Run) {
 		g := newGenCtx(rng)
 		var bs batchStates
 		defer bs.release()
+		budget := shrinksPerBatch
 		for k := 0; k < per; k++ {
 			e := g.edgeFor(rng, g.dependent(rng), g.pickExp(rng))
-			checkEdge(r, i, bs.get(e.Exp), e)
+			checkEdge(r, i, bs.get(e.Exp), e, &budget)
 		}
 	})
 }
@@ -496,7 +615,9 @@ func multiStream(r *lib.Run) {
 					e.D.TestOnly = false
 				}
 				v := refEdge(e)
-				if !v.Visible || v.TestOnly == "violated" {
+				if v.VisOpen {
+					anyOpen = true
+				} else if !v.Visible || v.TestOnly == "violated" {
 					if !anyBad {
 						badWhy = fmt.Sprintf("edge %d of %d (%s -> %s)", j+1, k, e.A, e.D)
 					}
@@ -541,7 +662,7 @@ func e2eStream(r *lib.Run) {
 			if e.Via == "src" {
 				e.Via = "dep"
 			}
-			if refEdge(e).TestOnly == "open" {
+			if v := refEdge(e); v.TestOnly == "open" || v.VisOpen {
 				continue
 			}
 			edges = append(edges, e)
@@ -590,7 +711,7 @@ func e2eStream(r *lib.Run) {
 				continue
 			}
 			if outcome != wantClass {
-				key := "e2e/" + wantClass + "-expected-got-" + outcome + "/" + want.VisWhy
+				key := "e2e/" + wantClass + "-expected-got-" + outcome + "/" + strings.SplitN(want.VisWhy, ":", 2)[0]
 				if wantClass == labellib.BuildTestOnly || outcome == labellib.BuildTestOnly {
 					key = "e2e/" + wantClass + "-expected-got-" + outcome + "/via-" + e.Via + dependentKind(e.A)
 				}
